@@ -280,15 +280,9 @@ func (mv mapValue) PropertyValue(iv Value) Value {
 	if !ir.IsValid() {
 		return nilValue
 	}
-	var er reflect.Value
-	kt := mr.Type().Key()
-	switch {
-	case ir.Type().AssignableTo(kt):
-		er = mr.MapIndex(ir)
-	case ir.Kind() == reflect.String && kt.Kind() == reflect.String:
-		// a.b reads the entry that a["b"] reads, also when the key type is a named string type
-		er = mr.MapIndex(ir.Convert(kt))
-	}
+	// a.b reads the entry that a["b"] reads, also when the key type is a named string type
+	// or the key is held as one in a map with keys of any type
+	er := MapEntry(mr, iv.Interface())
 	switch {
 	case er.IsValid():
 		return ValueOf(er.Interface())
